@@ -192,6 +192,16 @@ fn run_seq(req: &SeqReq) -> String {
                 sp.clear_curve();
                 "-".to_owned()
             }
+            // `k<i>:<L>`: sp.clone_from(a path that has not computed its curve); `K<i>:<L>`: … that has cached its curve
+            "k" | "K" => {
+                let (i, l) = idx_len(arg);
+                let mut src = SliderPath::new(req.mode, req.pool.get(i).cloned().unwrap_or_default(), l);
+                if kind == "K" {
+                    let _ = src.curve();
+                }
+                sp.clone_from(&src);
+                "-".to_owned()
+            }
             _ => panic!("bad op"),
         };
         out.push(s);
